@@ -29,7 +29,8 @@ META = {
                    "executed from symbolic wallet structures (membership of four keys), with a ghost set of handed-out keys, a symbolic crash "
                    "point and both buffering behaviours of the file object.",
     "technique": "CrossHair symbolic execution of the wallet's key bookkeeping and save path (one step from an invariant state; symbolic crash point)",
-    "bounds": "4 key labels; sequences get / restore / get; crash before any of the file operations of one save of a 2-key wallet",
+    "bounds": "4 key labels; sequences get / restore / get; crash before any of the file operations of one save of a 2-key wallet, followed by a restart "
+              "through open_or_init_wallet; balance on the world's head and one block further (one key paid twice per transaction)",
     "outside": "key bytes and annotation texts as symbolic strings (json/hexlify are C code and regular expressions: contents are concrete, "
                "structure is symbolic); OS-level crash semantics beyond process death (no fsync in the code)",
     "stubs": ["in-memory file system for wallet.json (eager and buffered writes)", "ideal key generation", "random.choice as a symbolic choice"],
